@@ -694,6 +694,13 @@ func (c *checker) checkOp(in *inst, s refState, o op, viaHTTP bool, path []op) r
 			}
 			return s
 		}
+		// over HTTP a conflict (409) tells the caller "stale or inconsistent, here is what I hold": whatever the
+		// reason for the refusal, a 409 carries the currently held STH
+		if viaHTTP && res.status == http.StatusConflict {
+			if h := s[o.Log.id]; h == nil || !bytes.Equal(res.body, h.raw) {
+				viol("conflict-answer-without-the-held-sth class="+ex.class, "HTTP 409 with body %.80q; held: %v", res.body, h != nil)
+			}
+		}
 		if ex.errWanted != (res.err != nil) {
 			viol(fmt.Sprintf("update-error-mismatch class=%s err_returned=%v", ex.class, res.err != nil), "err=%v", res.err)
 		}
